@@ -43,7 +43,8 @@ NAMED = {
     "(Ax+a)(Bx+b)'(Cx+c)(Dx+d)'": "integrate_general_quartic_outer",
 }
 ALL_KEYS = list(NAMED)
-LAYOUTS = ("shared", "percomp", "mixed", "nomat", "novec", "none", "samemat", "nomatper")
+LAYOUTS = ("shared", "percomp", "mixed", "nomat", "novec", "none", "samemat", "nomatper",
+           "samematper")
 
 
 def rows(key, K, L, M):
@@ -157,7 +158,7 @@ def run_cell(cell, rec, seed):
             nrows = rows(key, K, L, M)
             for fi, (nm, n) in enumerate(zip(GENERAL[key], nrows)):
                 per = {"shared": False, "percomp": True, "mixed": fi % 2 == 0,
-                       "nomatper": True}.get(lay, False)  # nomatper: identity matrix, offset
+                       "nomatper": True, "samematper": True}.get(lay, False)  # nomatper: identity matrix, offset
                 has_mat = lay not in ("nomat", "none", "nomatper")  # vector given per component
                 has_vec = lay not in ("novec", "none")
                 if not has_mat:
@@ -174,7 +175,7 @@ def run_cell(cell, rec, seed):
                 tv = np.zeros(n, dtype=int) if vec is None else vec
                 truth_m.append(tm)
                 truth_v.append(tv)
-            if lay == "samemat":
+            if lay in ("samemat", "samematper"):
                 # the very same array object passed for two matrices (A and B, C and D) with
                 # different offset vectors: a legitimate call (e.g. (Ax+a)'(Ax+b))
                 names = GENERAL[key]
